@@ -838,23 +838,7 @@ fn declared_public_paths() -> Vec<String> {
 }
 
 async fn raw_http(addr: std::net::SocketAddr, method: &str, path: &str, auth: Option<&str>, body: &str) -> Result<u16, String> {
-    use tokio::io::{AsyncReadExt, AsyncWriteExt};
-    let mut s = tokio::net::TcpStream::connect(addr).await.map_err(|e| format!("connect: {e}"))?;
-    let req = format!(
-        "{method} {path} HTTP/1.1\r\nHost: localhost\r\nConnection: close\r\nContent-Type: application/json\r\nContent-Length: {}\r\n{}\r\n{}",
-        body.len(),
-        auth.map(|a| format!("Authorization: {a}\r\n")).unwrap_or_default(),
-        body
-    );
-    s.write_all(req.as_bytes()).await.map_err(|e| format!("write: {e}"))?;
-    let mut buf = Vec::new();
-    match tokio::time::timeout(std::time::Duration::from_secs(20), s.read_to_end(&mut buf)).await {
-        Err(_) => return Err("no answer within 20 s".into()),
-        Ok(Err(e)) if buf.is_empty() => return Err(format!("read: {e}")),
-        _ => {}
-    }
-    let head = String::from_utf8_lossy(&buf[..buf.len().min(40)]).to_string();
-    head.split_whitespace().nth(1).and_then(|c| c.parse::<u16>().ok()).ok_or(format!("not an HTTP answer: {head:?}"))
+    crate::cat::raw_http(addr, method, path, auth, body).await.map(|x| x.0)
 }
 
 fn http_routes() -> Vec<(&'static str, &'static str, &'static str)> {
